@@ -69,7 +69,7 @@ pub fn base(tier: Tier) -> Profile {
         first_items: if q {
             Mix(vec![(1, Range(0, 3)), (5, Range(0, 60))])
         } else {
-            Mix(vec![(1, Range(0, 3)), (6, Range(0, 60)), (3, Range(60, 400)), (1, Range(400, 3000))])
+            Mix(vec![(1, Range(0, 3)), (6, Range(0, 60)), (3, Range(60, 400)), (1, Range(400, 900))])
         },
         updates: if q { Range(0, 20) } else { Mix(vec![(5, Range(0, 20)), (2, Range(20, 200))]) },
         p_cap_boundary: 0.25,
@@ -410,7 +410,7 @@ pub fn profile(name: &str, tier: Tier) -> Option<Profile> {
         "c13" => {
             p.default_cases = if q { 30 } else { 500 };
             p.threads = vec![(1, Range(2, 16)), (1, OneOf(vec![2, 3, 4, 8, 16]))];
-            p.first_items = if q { Range(40, 400) } else { Range(40, 3000) };
+            p.first_items = if q { Range(40, 400) } else { Range(40, 900) };
             p.updates = Range(5, 80);
             p.rounds = Range(2, 5);
             p.ntrees = vec![(1, None), (3, Some(Range(2, 12)))];
@@ -449,7 +449,7 @@ pub fn profile(name: &str, tier: Tier) -> Option<Profile> {
                 first_items: if q {
                     vec![150, 199, 200, 201, 450]
                 } else {
-                    vec![150, 199, 200, 201, 450, 1000, 5000]
+                    vec![150, 199, 200, 201, 450, 700, 1200]
                 },
                 splits: vec![1, 50, 199, 200, 300],
                 mems: vec![
@@ -619,7 +619,7 @@ pub fn profile(name: &str, tier: Tier) -> Option<Profile> {
                 Family::NanInf,
                 Family::Zero,
             ];
-            let counts: Vec<u64> = if q { vec![1, 2, 50, 500] } else { vec![1, 2, 50, 500, 2000, 5000] };
+            let counts: Vec<u64> = if q { vec![1, 2, 50, 500] } else { vec![1, 2, 50, 500, 1200] };
             p.default_cases = (families.len() * 7 * counts.len()) as u64 * if q { 1 } else { 20 };
             p.families = families.iter().map(|f| (1, *f)).collect();
             p.p_family_mix = 0.05;
